@@ -21,7 +21,7 @@ func extSizedTokens(r *Rand, tier string) []string {
 	bigKinds := map[string]bool{"i8": true, "str": true, "f64": true, "bool": true, "u64": true}
 	for _, k := range kinds {
 		for _, n := range sizes {
-			if n > 1000 && !bigKinds[k] {
+			if n > 1000 && !bigKinds[k] || n > 40000 && k != "i8" && k != "str" {
 				continue
 			}
 			elem := func(i int) string {
